@@ -364,7 +364,10 @@ class RangeNode(OperandNode):
         if '!' in value:
             sheet = ''
         try:
-            addr_str = value.replace('$', '')
+            # (a '$' inside of a quoted sheet name is part of the name)
+            addr_str = "'".join(
+                part if i % 2 else part.replace('$', '')
+                for i, part in enumerate(value.split("'")))
             address = AddressRange.create(addr_str, sheet=sheet, cell=self.cell)
         except ValueError:
             # check for table relative address
